@@ -29,6 +29,8 @@ import (
 	"path/filepath"
 	"strconv"
 	"strings"
+
+	"golang.org/x/tools/go/ast/astutil"
 )
 
 type fileBlock struct {
@@ -37,6 +39,10 @@ type fileBlock struct {
 	gostmt  string
 	points  [][3]string
 	require []string
+
+	extract    []string // function names to extract (engine X)
+	extractOut string   // virtual file path relative to the verif root
+	extractPkg string
 }
 
 func die(format string, args ...any) {
@@ -55,6 +61,7 @@ func main() {
 		die("%v", err)
 	}
 	var blocks []*fileBlock
+	var extracts []*fileBlock
 	var cur *fileBlock
 	adds := map[string]string{}
 	for ln, line := range strings.Split(string(data), "\n") {
@@ -82,6 +89,12 @@ func main() {
 			cur.require = append(cur.require, strings.TrimSpace(strings.TrimPrefix(strings.TrimSpace(line), "require")))
 		case "add":
 			adds[f[1]] = f[2]
+		case "extract":
+			if len(f) != 5 {
+				die("%s:%d: extract <repo file> <func,func> <out path in verif> <package>", *conf, ln+1)
+			}
+			cur = &fileBlock{rel: f[1], imports: map[string]string{}, extract: strings.Split(f[2], ","), extractOut: f[3], extractPkg: f[4]}
+			extracts = append(extracts, cur)
 		default:
 			die("%s:%d: unknown directive %q", *conf, ln+1, f[0])
 		}
@@ -110,6 +123,22 @@ func main() {
 			die("%v", err)
 		}
 		overlay[src] = dst
+	}
+	for i, b := range extracts {
+		src := filepath.Join(*repo, b.rel)
+		text, err := os.ReadFile(src)
+		if err != nil {
+			die("%v", err)
+		}
+		res, err := extractFuncs(src, text, b)
+		if err != nil {
+			die("extract from %s: %v", b.rel, err)
+		}
+		dst := filepath.Join(*out, fmt.Sprintf("x%d_%s", i, filepath.Base(b.extractOut)))
+		if err := os.WriteFile(dst, res, 0o666); err != nil {
+			die("%v", err)
+		}
+		overlay[filepath.Join(*verif, b.extractOut)] = dst
 	}
 	for rel, from := range adds {
 		dst := filepath.Join(*repo, rel)
@@ -328,4 +357,204 @@ func rewriteGo(g *ast.GoStmt, fset *token.FileSet, n int) ast.Stmt {
 	}
 	blk.List = append(blk.List, spawn)
 	return blk
+}
+
+
+// ---------- engine X: function extraction onto the virtual runtime ----------
+
+func vrtSel(name string) ast.Expr {
+	return &ast.SelectorExpr{X: ast.NewIdent("vrt"), Sel: ast.NewIdent(name)}
+}
+
+func chanOf(elem ast.Expr) ast.Expr {
+	return &ast.StarExpr{X: &ast.IndexExpr{X: vrtSel("Chan"), Index: elem}}
+}
+
+// rewriteChans rewrites go statements, channel types, make(chan), send, receive,
+// close and select onto package vrt. It is purely syntactic.
+func rewriteChans(n ast.Node, goCount *int) ast.Node {
+	var pre func(c *astutil.Cursor) bool
+	rw := func(x ast.Node) ast.Node { return rewriteChans(x, goCount) }
+	rwExpr := func(e ast.Expr) ast.Expr {
+		if e == nil {
+			return nil
+		}
+		return rw(e).(ast.Expr)
+	}
+	method := func(recv ast.Expr, name string, args ...ast.Expr) *ast.CallExpr {
+		return &ast.CallExpr{Fun: &ast.SelectorExpr{X: rwExpr(recv), Sel: ast.NewIdent(name)}, Args: args}
+	}
+	pre = func(c *astutil.Cursor) bool {
+		switch x := c.Node().(type) {
+		case *ast.ChanType:
+			c.Replace(chanOf(rwExpr(x.Value)))
+			return false
+		case *ast.SendStmt:
+			c.Replace(&ast.ExprStmt{X: method(x.Chan, "Send", rwExpr(x.Value))})
+			return false
+		case *ast.UnaryExpr:
+			if x.Op == token.ARROW {
+				c.Replace(method(x.X, "Recv"))
+				return false
+			}
+		case *ast.AssignStmt:
+			if len(x.Lhs) == 2 && len(x.Rhs) == 1 {
+				if u, ok := x.Rhs[0].(*ast.UnaryExpr); ok && u.Op == token.ARROW {
+					x.Rhs[0] = method(u.X, "Recv2")
+					return false
+				}
+			}
+		case *ast.CallExpr:
+			if id, ok := x.Fun.(*ast.Ident); ok {
+				if id.Name == "make" && len(x.Args) >= 1 {
+					if ct, ok := x.Args[0].(*ast.ChanType); ok {
+						var size ast.Expr = &ast.BasicLit{Kind: token.INT, Value: "0"}
+						if len(x.Args) > 1 {
+							size = rwExpr(x.Args[1])
+						}
+						c.Replace(&ast.CallExpr{Fun: &ast.IndexExpr{X: vrtSel("NewChan"), Index: rwExpr(ct.Value)}, Args: []ast.Expr{size}})
+						return false
+					}
+				}
+				if id.Name == "close" && len(x.Args) == 1 {
+					c.Replace(method(x.Args[0], "Close"))
+					return false
+				}
+			}
+		case *ast.GoStmt:
+			*goCount++
+			call := rw(x.Call).(*ast.CallExpr)
+			var body *ast.BlockStmt
+			if fl, ok := call.Fun.(*ast.FuncLit); ok && len(call.Args) == 0 {
+				body = fl.Body
+			} else {
+				body = &ast.BlockStmt{List: []ast.Stmt{&ast.ExprStmt{X: call}}}
+			}
+			c.Replace(&ast.ExprStmt{X: &ast.CallExpr{Fun: vrtSel("Go"), Args: []ast.Expr{
+				&ast.BasicLit{Kind: token.STRING, Value: strconv.Quote(fmt.Sprintf("go#%d", *goCount))},
+				&ast.FuncLit{Type: &ast.FuncType{Params: &ast.FieldList{}}, Body: body},
+			}}})
+			return false
+		case *ast.SelectStmt:
+			hasDefault := "false"
+			var cases []ast.Expr
+			var clauses []ast.Stmt
+			idx := 0
+			var defaultBody []ast.Stmt
+			for _, cl := range x.Body.List {
+				cc := cl.(*ast.CommClause)
+				var body []ast.Stmt
+				for _, st := range cc.Body {
+					body = append(body, rw(st).(ast.Stmt))
+				}
+				if cc.Comm == nil {
+					hasDefault = "true"
+					defaultBody = body
+					continue
+				}
+				switch comm := cc.Comm.(type) {
+				case *ast.SendStmt:
+					cases = append(cases, &ast.CallExpr{Fun: vrtSel("SendCase"), Args: []ast.Expr{rwExpr(comm.Chan), rwExpr(comm.Value)}})
+				case *ast.ExprStmt:
+					u := comm.X.(*ast.UnaryExpr)
+					cases = append(cases, &ast.CallExpr{Fun: vrtSel("RecvCase"), Args: []ast.Expr{rwExpr(u.X)}})
+				case *ast.AssignStmt:
+					u := comm.Rhs[0].(*ast.UnaryExpr)
+					ch := rwExpr(u.X)
+					cases = append(cases, &ast.CallExpr{Fun: vrtSel("RecvCase"), Args: []ast.Expr{ch}})
+					rhs := []ast.Expr{&ast.CallExpr{Fun: vrtSel("Cast"), Args: []ast.Expr{ch, ast.NewIdent("_verifV")}}}
+					if len(comm.Lhs) == 2 {
+						rhs = append(rhs, ast.NewIdent("_verifOK"))
+					}
+					body = append([]ast.Stmt{&ast.AssignStmt{Lhs: comm.Lhs, Tok: comm.Tok, Rhs: rhs}}, body...)
+				}
+				clauses = append(clauses, &ast.CaseClause{List: []ast.Expr{&ast.BasicLit{Kind: token.INT, Value: strconv.Itoa(idx)}}, Body: body})
+				idx++
+			}
+			if hasDefault == "true" {
+				clauses = append(clauses, &ast.CaseClause{Body: defaultBody})
+			}
+			args := append([]ast.Expr{ast.NewIdent(hasDefault)}, cases...)
+			blk := &ast.BlockStmt{List: []ast.Stmt{
+				&ast.AssignStmt{Lhs: []ast.Expr{ast.NewIdent("_verifI"), ast.NewIdent("_verifV"), ast.NewIdent("_verifOK")}, Tok: token.DEFINE, Rhs: []ast.Expr{&ast.CallExpr{Fun: vrtSel("Select"), Args: args}}},
+				&ast.AssignStmt{Lhs: []ast.Expr{ast.NewIdent("_"), ast.NewIdent("_")}, Tok: token.ASSIGN, Rhs: []ast.Expr{ast.NewIdent("_verifV"), ast.NewIdent("_verifOK")}},
+				&ast.SwitchStmt{Tag: ast.NewIdent("_verifI"), Body: &ast.BlockStmt{List: clauses}},
+			}}
+			// a labelled break out of a select is not supported
+			c.Replace(blk)
+			return false
+		}
+		return true
+	}
+	return astutil.Apply(n, pre, nil)
+}
+
+// extractFuncs copies the named functions out of the source file into a new
+// package whose imports are the configured virtual packages.
+func extractFuncs(filename string, text []byte, b *fileBlock) ([]byte, error) {
+	fset := token.NewFileSet()
+	f, err := parser.ParseFile(fset, filename, text, 0)
+	if err != nil {
+		return nil, err
+	}
+	local := map[string]string{} // local import name -> path
+	for _, im := range f.Imports {
+		p, _ := strconv.Unquote(im.Path.Value)
+		name := path.Base(p)
+		if im.Name != nil {
+			name = im.Name.Name
+		}
+		local[name] = p
+	}
+	var decls []ast.Decl
+	used := map[string]bool{}
+	goCount := 0
+	for _, want := range b.extract {
+		var fd *ast.FuncDecl
+		for _, d := range f.Decls {
+			if x, ok := d.(*ast.FuncDecl); ok && x.Recv == nil && x.Name.Name == want {
+				fd = x
+			}
+		}
+		if fd == nil {
+			return nil, fmt.Errorf("function %s not found", want)
+		}
+		fd = rewriteChans(fd, &goCount).(*ast.FuncDecl)
+		ast.Inspect(fd, func(n ast.Node) bool {
+			if se, ok := n.(*ast.SelectorExpr); ok {
+				if id, ok := se.X.(*ast.Ident); ok && id.Obj == nil {
+					if _, isImp := local[id.Name]; isImp {
+						used[id.Name] = true
+					}
+				}
+			}
+			return true
+		})
+		decls = append(decls, fd)
+		// exported alias
+		decls = append(decls, &ast.GenDecl{Tok: token.VAR, Specs: []ast.Spec{&ast.ValueSpec{
+			Names:  []*ast.Ident{ast.NewIdent("X_" + want)},
+			Values: []ast.Expr{ast.NewIdent(want)},
+		}}})
+	}
+	var specs []ast.Spec
+	specs = append(specs, &ast.ImportSpec{Name: ast.NewIdent("vrt"), Path: &ast.BasicLit{Kind: token.STRING, Value: strconv.Quote("verif/virt/vrt")}})
+	for name := range used {
+		if name == "vrt" {
+			continue
+		}
+		p := local[name]
+		repl, ok := b.imports[p]
+		if !ok {
+			return nil, fmt.Errorf("extracted code uses package %q, for which no virtual replacement is configured", p)
+		}
+		specs = append(specs, &ast.ImportSpec{Name: ast.NewIdent(name), Path: &ast.BasicLit{Kind: token.STRING, Value: strconv.Quote(repl)}})
+	}
+	nf := &ast.File{Name: ast.NewIdent(b.extractPkg), Decls: append([]ast.Decl{&ast.GenDecl{Tok: token.IMPORT, Lparen: 1, Specs: specs}}, decls...)}
+	var buf bytes.Buffer
+	buf.WriteString("// Code generated by vinstr from " + b.rel + " (functions " + strings.Join(b.extract, ", ") + "); DO NOT EDIT.\n\n")
+	if err := format.Node(&buf, token.NewFileSet(), nf); err != nil {
+		return nil, err
+	}
+	return buf.Bytes(), nil
 }
